@@ -70,6 +70,8 @@ def jobs_list(thorough):
         add("whfast/default/c0/%s/unsync" % nm, ["whfast", 0, 0, coord, "unsync"], "whfast_dh_word_unsync", "wh3")
     for c in (0, 5):
         add("whfast/default/c%d/recalc x3 while unsynchronized" % c, ["whfast", 0, c, 0, "recalc"], "whfast_recalc_word %d" % c, "wh", dts=both if c == 0 else (DT,))
+    for t in (1, 6):
+        add("saba/0x%x/recalc x3 while unsynchronized" % t, ["saba", t, 0, 0, "recalc"], "saba_recalc_word %d" % t, "wh", dts=both if t == 6 else (DT,))
     add("mercurius/step", ["mercurius", 0, 0, 0, "step"], "hybrid_word", "wh3h", dts=both)
     add("mercurius/unsync", ["mercurius", 0, 0, 0, "unsync"], "hybrid_word_unsync", "wh3h")
     for pm in (0, 1, 2):
